@@ -273,8 +273,9 @@ def case_universe(ctx, spec):
             raise Discard("run raised (C10's business): %s" % type(e).__name__)
     finally:
         interp.Probe.registry.pop("c19uni", None)
+    check_live_structure(bt, b.strategy, "after the run")
     # settings pushed from the top reached every node, including children created lazily mid-run
-    for m in b.strategy.members:
+    for m in walk_live(b.strategy):
         if m.integer_positions != spec.get("integer_positions", True):
             raise Violation("integer_positions did not reach %s (created lazily: %s)" % (m.full_name, isinstance(m, bt.core.SecurityBase)), signature="c19:lazy-integer-flag")
         if fee is not None and isinstance(m, bt.core.StrategyBase) and m.commission_fn is not fee:
@@ -303,20 +304,74 @@ def eagerize(tree, lazy):
     return t
 
 
+def walk_live(node):
+    out = [node]
+    for c in node.children.values():
+        out += walk_live(c)
+    return out
+
+
+def check_live_structure(bt, root, tag):
+    """members / securities / parent / root of every node agree with the children dictionaries as they are now (after lazily declared
+    children have been created)"""
+    for m in walk_live(root):
+        exp = walk_live(m)
+        got = m.members
+        if [id(x) for x in got] != [id(x) for x in exp] and sorted(map(id, got)) != sorted(map(id, exp)):
+            raise Violation("%s: %s.members is %s but its subtree is %s" % (tag, m.full_name, [x.full_name for x in got], [x.full_name for x in exp]), signature="c19:members-after-run")
+        if m.root is not root:
+            raise Violation("%s: %s.root is not the tree's root" % (tag, m.full_name), signature="c19:lazy-root")
+        for c in m.children.values():
+            if c.parent is not m:
+                raise Violation("%s: %s.parent is not %s" % (tag, c.full_name, m.full_name), signature="c19:parent-after-run")
+        if isinstance(m, bt.core.StrategyBase):
+            esec = [x for x in exp if isinstance(x, bt.core.SecurityBase)]
+            gsec = m.securities
+            if sorted(map(id, gsec)) != sorted(map(id, esec)):
+                raise Violation("%s: %s.securities is %s but the securities of its subtree are %s" % (tag, m.full_name, [x.full_name for x in gsec], [x.full_name for x in esec]), signature="c19:securities-after-run")
+            cols = sorted(map(str, m.positions.columns))
+            if cols != sorted({x.name for x in esec}):
+                raise Violation("%s: %s.positions has columns %s but its subtree holds securities %s" % (tag, m.full_name, cols, sorted({x.name for x in esec})), signature="c19:positions-columns")
+
+
+def _run_touched(bt, spec, touch):
+    """run the spec; with touch, the caller has looked at the template first (members, securities, full names) - looking changes nothing"""
+    if not touch:
+        return c10.run_backtest(bt, spec)
+    frames = interp.mk_frames(spec)
+    template = interp.mk_node(bt, spec["tree"], spec, frames)
+    for m in walk_live(template):
+        m.members, m.full_name
+        if isinstance(m, bt.core.StrategyBase):
+            m.securities
+    interp.seed_rngs(spec)
+    b = interp.mk_backtest(bt, spec, frames=frames, strategy=template)
+    import contextlib
+    import io
+
+    with contextlib.redirect_stdout(io.StringIO()):
+        b.run()
+    return b
+
+
 def case_lazy_vs_eager(ctx, spec):
     bt = ctx.bt
+    touch = bool(spec.get("touch"))
+    spec = {k: v for k, v in spec.items() if k != "touch"}
     s_lazy = copy.deepcopy(spec)
     s_lazy["tree"] = eagerize(spec["tree"], True)
     s_eager = copy.deepcopy(spec)
     s_eager["tree"] = eagerize(spec["tree"], False)
     try:
-        b1 = c10.run_backtest(bt, s_lazy)
+        b1 = _run_touched(bt, s_lazy, touch)
     except Exception as e:
         raise Discard("run raised (C10's business): %s" % type(e).__name__)
     try:
-        b2 = c10.run_backtest(bt, s_eager)
+        b2 = _run_touched(bt, s_eager, touch)
     except Exception as e:
         raise Violation("pre-constructed children make the run raise %s: %s (string children run fine)" % (type(e).__name__, str(e)[:200]), signature="c19:eager-raises")
+    check_live_structure(bt, b1.strategy, "string children")
+    check_live_structure(bt, b2.strategy, "pre-constructed children")
     h1 = interp.tree_history(b1.strategy, bt)
     h2 = interp.tree_history(b2.strategy, bt)
     cap = abs(spec.get("initial_capital", 1e6))
@@ -337,12 +392,20 @@ def case_lazy_vs_eager(ctx, spec):
             if len(x) != len(y) or not np.allclose(x, y, rtol=1e-9, atol=1e-9 * cap, equal_nan=True):
                 i = int(np.argmax(~np.isclose(x, y, rtol=1e-9, atol=1e-9 * cap, equal_nan=True))) if len(x) == len(y) else -1
                 raise Violation("%s.%s differs between string children and pre-constructed securities (row %d: %r vs %r)" % (name, nm, i, x[i] if i >= 0 else len(x), y[i] if i >= 0 else len(y)), signature="c19:lazy-vs-eager:" + nm)
-    return {"nontrivial": c10.n_trades(bt, b1) >= 2, "labels": gen.spec_labels(spec)}
+    depth = max(len(p_) for p_, _ in gen.walk_nodes(spec["tree"]))
+    return {"nontrivial": c10.n_trades(bt, b1) >= 2, "labels": gen.spec_labels(spec) + (["template_inspected_first"] if touch else []) + ["depth=%d" % depth]}
 
 
-def lve_spec():
+@st.composite
+def lve_spec(draw):
     # order-dependent RNG algos are excluded: eager children change the order in which children are created, not the universe
-    return gen.backtest_spec(max_dates=12, declare=True, scale_free=True, allow_risk=False)
+    k = draw(st.integers(0, 3))
+    if k == 0:
+        spec = draw(gen.backtest_spec(max_dates=12, nested=True, scale_free=True, allow_risk=False, depth3=True, max_sub=2))
+    else:
+        spec = draw(gen.backtest_spec(max_dates=12, declare=True, scale_free=True, allow_risk=False))
+    spec["touch"] = draw(st.booleans())
+    return spec
 
 
 SUBS = {"construct": case_construct, "universe": case_universe, "lazy_vs_eager": case_lazy_vs_eager}
